@@ -853,7 +853,7 @@ func runC05(ctx *Ctx) *Result {
 		switch k := rng.Intn(100); {
 		case k < 30:
 			c.Stream = "routes"
-			c.DevRoutes, c.TgtRoutes, c.Noise = genRoutes(rng, routeGenOpts{multiHop: rng.Chance(35), max: 8}, res)
+			c.DevRoutes, c.TgtRoutes, c.Noise = genRoutes(rng, routeGenOpts{multiHop: rng.Chance(35), dupTarget: rng.Chance(10), max: 8}, res)
 		case k < 70:
 			c.Stream = "iptables"
 			c.TgtRS = genRS(rng, ruleOpts{})
@@ -863,7 +863,7 @@ func runC05(ctx *Ctx) *Result {
 			}
 		default:
 			c.Stream = "both"
-			c.DevRoutes, c.TgtRoutes, c.Noise = genRoutes(rng, routeGenOpts{multiHop: rng.Chance(25), max: 6}, res)
+			c.DevRoutes, c.TgtRoutes, c.Noise = genRoutes(rng, routeGenOpts{multiHop: rng.Chance(25), dupTarget: rng.Chance(8), max: 6}, res)
 			c.TgtRS = genRS(rng, ruleOpts{})
 			c.DevRS = mutateRS(rng, c.TgtRS, res, false)
 		}
@@ -1130,7 +1130,7 @@ func witnesses() []*c05Case {
 		// a table with the empty name that only the device has goes unnoticed (iptables_diff_iff_counterexample)
 		{Stream: "witness", Dev: "*\n:INPUT DROP\nCOMMIT\n*filter\n:INPUT DROP\n", Spoc: "*filter\n:INPUT DROP\n*\n"},
 		{Stream: "witness", Dev: "*\n", Spoc: ""},
-		// duplicate target route: `ip route add` for an existing route
+		// duplicate target route (F-C05d, repaired): `ip route add` for an existing route was emitted
 		{Stream: "witness", Abstract: true, DevRoutes: []devRoute{{IP: "10.1.1.0", Plen: 24, Hop: "10.10.1.1"}},
 			TgtRoutes: []string{"ip route add 10.1.1.0/24 via 10.10.1.1", "ip route add 10.1.1.0/24 via 10.10.1.1"}},
 		// state match written before an implicitly loaded protocol match: kernel prints `-m state … -m tcp …`
@@ -1141,7 +1141,7 @@ func witnesses() []*c05Case {
 		{Stream: "witness", Abstract: true, Names: true,
 			TgtRS: filter([]string{"p~n~tcp~0~0", "dp~1~22~~0~0", "m~state", "st~N", "j~ACCEPT"}),
 			DevRS: filter([]string{"p~n~tcp~0~0", "dp~1~22~~0~0", "m~state", "st~N", "j~ACCEPT"})},
-		// `--syn` without negation: the kernel prints `--tcp-flags FIN,SYN,RST,ACK SYN`
+		// `--syn` without negation (F-C05s, repaired): the kernel prints `--tcp-flags FIN,SYN,RST,ACK SYN`
 		{Stream: "witness", Abstract: true,
 			TgtRS: filter([]string{"j~ACCEPT", "p~n~tcp~0~0", "syn~0~0"}),
 			DevRS: filter([]string{"j~ACCEPT", "p~n~tcp~0~0", "syn~0~0"})},
